@@ -45,8 +45,8 @@ ASSUMPTIONS = [
     "stopping inequalities are the ones documented in the two _solve methods, recomputed from convergence_history and the options",
 ]
 FLOORS = {
-    "quick": {"verbose_runs": 50, "frontend_calls_in_a_row": 40, "mass_balance": 1500, "distance_is_cost_of_flux": 1500, "status_honest": 400, "fault:not_converged": 2000, "fault:last_valid_iterate": 2000, "fault:depth:backend": 1000, "fault:depth:after_update": 1000, "fault:depth:backend_returns_nan": 1000, "second_pair_on_same_object": 150, "lab_scale_cg_relative_tolerance_only": 10, "masses_as_uint8_images": 60, "monitoring_active": 1500},
-    "thorough": {"verbose_runs": 400, "frontend_calls_in_a_row": 300, "mass_balance": 12000, "distance_is_cost_of_flux": 12000, "status_honest": 3800, "fault:not_converged": 16000, "fault:last_valid_iterate": 16000, "fault:depth:backend": 8000, "fault:depth:after_update": 8000, "fault:depth:backend_returns_nan": 8000, "second_pair_on_same_object": 1500, "lab_scale_cg_relative_tolerance_only": 100, "masses_as_uint8_images": 600, "monitoring_active": 12000},
+    "quick": {"verbose_runs": 50, "frontend_calls_in_a_row": 80, "mass_balance": 1500, "distance_is_cost_of_flux": 1500, "status_honest": 400, "fault:not_converged": 2000, "fault:last_valid_iterate": 2000, "fault:depth:backend": 1000, "fault:depth:after_update": 1000, "fault:depth:backend_returns_nan": 1000, "second_pair_on_same_object": 150, "lab_scale_cg_relative_tolerance_only": 10, "masses_as_uint8_images": 60, "monitoring_active": 1500},
+    "thorough": {"verbose_runs": 400, "frontend_calls_in_a_row": 600, "mass_balance": 12000, "distance_is_cost_of_flux": 12000, "status_honest": 3800, "fault:not_converged": 16000, "fault:last_valid_iterate": 16000, "fault:depth:backend": 8000, "fault:depth:after_update": 8000, "fault:depth:backend_returns_nan": 8000, "second_pair_on_same_object": 1500, "lab_scale_cg_relative_tolerance_only": 100, "masses_as_uint8_images": 600, "monitoring_active": 12000},
 }
 SHARD_TIMEOUT = {"quick": 1500, "thorough": 6000}
 
@@ -323,14 +323,17 @@ def run_shard(spec, R):
                         {**desc, "got": str(rs)[:80], "info_path": [float(dist), conv]}, key=ml_key)
         # the unified entry point, twice in a row with the same options object: the same pair, then the same arrays
         # on a domain with other voxel sizes; each call agrees with a solver object set up for its own images
-        if c["id"] % 3 == 0 and cw is None and flux is not None and not swallowed and m1.img.dtype != np.uint8:
+        if c["id"] % 3 == 0 and flux is not None and not swallowed and m1.img.dtype != np.uint8:
             fe_name = "newton" if c["method"] == "newton" else "bregman"
             h2 = [x * f for x, f in zip(h, (2.0, 0.5, 3.0))]
             m1c, m2c = wass.images(darsia, a, b, h2)
+            # a scalar cell weight goes along as an image on the respective domain
+            wimg2 = None if cw is None else darsia.Image(np.full(shape, float(cw)), space_dim=dim, dimensions=[shape[d] * h2[d] for d in range(dim)], scalar=True)
             opt_fe = wass.make_options(darsia, c["method"], c["l1"], c["mob"], formulation, backend, c["aa"], num_iter, extra)
-            ok, fe = R.guarded("frontend_pair", lambda: (darsia.wasserstein_distance(m1, m2, fe_name, options=opt_fe), darsia.wasserstein_distance(m1c, m2c, fe_name, options=opt_fe)), key=lambda e, w: ml_key)
+            ok, fe = R.guarded("frontend_pair", lambda: (darsia.wasserstein_distance(m1, m2, fe_name, weight=weight_img, options=opt_fe),
+                                                         darsia.wasserstein_distance(m1c, m2c, fe_name, weight=wimg2, options=opt_fe)), key=lambda e, w: ml_key)
             if ok:
-                w3 = wass.solver_class(darsia, c["method"])(darsia.generate_grid(m1c), None, wass.make_options(darsia, c["method"], c["l1"], c["mob"], formulation, backend, c["aa"], num_iter, extra))
+                w3 = wass.solver_class(darsia, c["method"])(darsia.generate_grid(m1c), wimg2, wass.make_options(darsia, c["method"], c["l1"], c["mob"], formulation, backend, c["aa"], num_iter, extra))
                 ok, be = R.guarded("frontend_pair", lambda: w3(m1c, m2c), key=lambda e, w: ml_key)
             if ok:
                 rel = 1e-7 if (backend in ("amg", "cg") and M.num_cells > 99) else 1e-12
@@ -339,7 +342,7 @@ def run_shard(spec, R):
                 vs = [float(x) for x in fe[1][1]["grid"].voxel_size] if "grid" in fe[1][1] else None
                 good = good and (vs is None or np.allclose(vs, h2, rtol=1e-12, atol=0))
                 R.check(bool(good), "frontend_calls_in_a_row", lambda: {**desc, "first_call": d_fe1, "solver_object_first": float(dist), "second_call_other_voxel_size": d_fe2, "solver_object_second": d_be2,
-                                                                        "second_voxel_size": h2, "grid_reported_by_second_call": vs}, key=ml_key, group=grp)
+                                                                        "second_voxel_size": h2, "grid_reported_by_second_call": vs, "cell_weight": cw}, key=ml_key, group=grp)
         if swallowed or flux is None:
             # the clean run itself stopped on an internal failure: no fault enumeration on top
             R.skip("fault_enumeration:clean_run_already_failed")
